@@ -11,7 +11,6 @@ import (
 	"fmt"
 	"io"
 	"net"
-	"sync"
 	"syscall"
 	"time"
 
@@ -107,16 +106,16 @@ type Net struct {
 	S   *kernel.Sim
 	Cfg Config
 
-	mu        sync.Mutex
+	mu        kernel.HMutex
 	nextConn  int
 	nextPort  int
-	listeners map[string]*Listener
+	listeners []*Listener // no Go map: see kernel.counter
 	Eps       []*Endpoint
 }
 
 // New creates a network on sim s with default per-connection config cfg.
 func New(s *kernel.Sim, cfg Config) *Net {
-	return &Net{S: s, Cfg: cfg, listeners: map[string]*Listener{}, nextPort: 40000}
+	return &Net{S: s, Cfg: cfg, nextPort: 40000}
 }
 
 // DrawConfig draws a swarm-style transport configuration from the tape.
@@ -301,8 +300,6 @@ func (e *Endpoint) doReset() {
 // Read implements net.Conn.
 func (e *Endpoint) Read(p []byte) (int, error) {
 	s := e.n.S
-	kernel.RaceOff()
-	defer kernel.RaceOn()
 	act := e.hook('R', len(p))
 	switch act {
 	case Reset:
@@ -366,8 +363,6 @@ func (e *Endpoint) Read(p []byte) (int, error) {
 // Write implements net.Conn.
 func (e *Endpoint) Write(p []byte) (int, error) {
 	s := e.n.S
-	kernel.RaceOff()
-	defer kernel.RaceOn()
 	act := e.hook('W', len(p))
 	switch act {
 	case Reset:
@@ -490,8 +485,6 @@ func (e *Endpoint) Inject(b []byte) {
 // Close implements net.Conn. Closing is a scheduling point.
 func (e *Endpoint) Close() error {
 	s := e.n.S
-	kernel.RaceOff()
-	defer kernel.RaceOn()
 	s.Yield("C:" + e.Name)
 	e.n.mu.Lock()
 	defer e.n.mu.Unlock()
@@ -553,20 +546,28 @@ func (n *Net) Listen(addr string) (*Listener, error) {
 		n.nextPort++
 		addr = net.JoinHostPort(host, fmt.Sprint(n.nextPort))
 	}
-	if l, ok := n.listeners[addr]; ok && !l.closed {
+	if l := n.listenerAt(addr); l != nil && !l.closed {
 		return nil, opErr("listen", syscall.EADDRINUSE)
 	}
 	l := &Listener{n: n, addr: Addr(addr), Name: "L:" + addr}
-	n.listeners[addr] = l
+	n.listeners = append(n.listeners, l)
 	return l, nil
+}
+
+// listenerAt returns the most recent listener bound to addr.
+func (n *Net) listenerAt(addr string) *Listener {
+	for i := len(n.listeners) - 1; i >= 0; i-- {
+		if string(n.listeners[i].addr) == addr {
+			return n.listeners[i]
+		}
+	}
+	return nil
 }
 
 func (l *Listener) Addr() net.Addr { return l.addr }
 
 func (l *Listener) Accept() (net.Conn, error) {
 	s := l.n.S
-	kernel.RaceOff()
-	defer kernel.RaceOn()
 	s.Park("A:"+string(l.addr), acceptWait{l})
 	l.n.mu.Lock()
 	defer l.n.mu.Unlock()
@@ -583,8 +584,6 @@ func (l *Listener) Accept() (net.Conn, error) {
 
 func (l *Listener) Close() error {
 	s := l.n.S
-	kernel.RaceOff()
-	defer kernel.RaceOn()
 	s.Yield("LC:" + string(l.addr))
 	l.n.mu.Lock()
 	defer l.n.mu.Unlock()
@@ -603,8 +602,6 @@ func (l *Listener) Close() error {
 // Dial connects from a fresh local port on fromHost to addr.
 func (n *Net) Dial(ctx context.Context, fromHost, addr string) (*Endpoint, error) {
 	s := n.S
-	kernel.RaceOff()
-	defer kernel.RaceOn()
 	s.Yield("D:" + fromHost + ">" + addr)
 	if err := ctx.Err(); err != nil {
 		return nil, err
@@ -614,8 +611,8 @@ func (n *Net) Dial(ctx context.Context, fromHost, addr string) (*Endpoint, error
 	if s.Ended() {
 		return nil, ErrSimEnded
 	}
-	l, ok := n.listeners[addr]
-	if !ok || l.closed {
+	l := n.listenerAt(addr)
+	if l == nil || l.closed {
 		return nil, opErr("dial", syscall.ECONNREFUSED)
 	}
 	n.nextPort++
